@@ -208,6 +208,9 @@ func init() {
 		return runReaderScenario(seed*1000003+int64(idx), rOpts{mode: "limit", handlers: idx%4 == 0, smallOnly: true})
 	}
 	streams["rfuzz"] = func(seed int64, idx int) *scenario { return runFuzzScenario(seed*1000003 + int64(idx)) }
+	streams["hsfault"] = func(seed int64, idx int) *scenario { return runHsFaultScenario(seed*1000003+int64(idx), idx) }
+	streams["glue"] = func(seed int64, idx int) *scenario { return runGlueScenario(seed*1000003 + int64(idx)) }
+	streams["nego"] = func(seed int64, idx int) *scenario { return runNegoScenario(seed*1000003+int64(idx), idx) }
 	streams["pair"] = func(seed int64, idx int) *scenario { return runPairScenario(seed*1000003 + int64(idx)) }
 	streams["join"] = func(seed int64, idx int) *scenario { return runJoinScenario(seed*1000003 + int64(idx)) }
 	streams["srv"] = func(seed int64, idx int) *scenario { return runServerScenario(seed*1000003+int64(idx), false) }
